@@ -35,4 +35,7 @@ def core_schema():
     # algos state
     s.declare(has_run="bool", days="int", n="int", offset="int", idx="int", lcall="date", date="date", dates="opaque",
               _run_on_first_date="bool", _run_on_end_of_period="bool", _run_on_last_date="bool")
+    # algo stacks / flow control (ghost: g_calls, g_stamp, g_clock record invocations of opaque algos)
+    s.declare(algos="list", _list_of_algos="list", check_run_always="bool", run_always="bool", has_run_always="bool",
+              g_calls="int", g_stamp="int", g_clock="int", g_runs="int", perm_ver="int", _algo="ref:Algo", stack="ref:AlgoStack")
     return s
